@@ -182,8 +182,27 @@ DynScopeFamily ==
   {DynProg(nm, pat, site, imp) : nm \in DynNames, pat \in {"cn", "nc", "nn", "cAn"}, site \in {"fn", "fn3"}, imp \in BOOLEAN}
   \cup {DynProg(nm, "cn", site, imp) : nm \in DynNames, site \in {"rec", "fnfn"}, imp \in BOOLEAN}
 
+\* ---- RecPair: two binders in one statement, spelled alike or not, of the same or of different kinds ----
+\* body(b, kd): a recursive schema over binder b whose kind is fixed by use: an object with a sum of b and {},
+\* an array of a sum of b and an array, or (ill-kinded) an array of a sum of b and an object
+RecPairBody(b, kd) ==
+  CASE kd = "obj" -> Obj(<<Prop("kids", Arr(Op("|", <<Var(b), Obj(<<>>)>>)))>>)
+    [] kd = "arr" -> Arr(Op("|", <<Var(b), Arr(Prim("num"))>>))
+    [] kd = "bad" -> Arr(Op("|", <<Var(b), Obj(<<>>)>>))
+RecPairKinds == {"obj", "arr", "bad"}
+RecPairBinders == {"x", "y"}
+RecPairHosts == {"props", "param", "nested"}
+RecPairProg(h, b1, k1, b2, k2) ==
+  CASE h = "props" -> ArityOne(<<Let("a", Obj(<<Prop("t", Rec(b1, RecPairBody(b1, k1))), Prop("l", Rec(b2, RecPairBody(b2, k2)))>>)), Body(Var("a"))>>)
+    \* a parameter b1 used as an object, and a rec binder b2 of kind k2 in the same function body
+    [] h = "param" -> ArityOne(<<Decl("f", <<b1>>, Obj(<<Prop("a", Op("|", <<Var(b1), Obj(<<>>)>>)), Prop("b", Rec(b2, RecPairBody(b2, k2)))>>)),
+                                 Body(App(Var("f"), <<Obj(<<>>)>>))>>)
+    \* a rec inside a rec: the inner binder may repeat the outer spelling
+    [] h = "nested" -> ArityOne(<<Let("a", Rec(b1, Obj(<<Prop("o", Arr(Op("|", <<Var(b1), Obj(<<>>)>>))), Prop("i", Rec(b2, RecPairBody(b2, k2)))>>))), Body(Var("a"))>>)
+\* names "host-b1-k1-b2-k2" are built by the MC modules from the five components
+
 \* one program per (position, shape, indirection) of either family
-Member(pn, sn, ind) == IF pn = "arity" THEN ArityProg(sn) ELSE IF ind \in {"fnlocal", "fnimp"} THEN FnProg(pn, sn, ind) ELSE ProgOf(pn, sn, ind)
+Member(pn, sn, ind) == IF pn = "arity" THEN ArityProg(sn) ELSE IF pn = "recpair" THEN RecPairProg(sn[1], sn[2], sn[3], sn[4], sn[5]) ELSE IF ind \in {"fnlocal", "fnimp"} THEN FnProg(pn, sn, ind) ELSE ProgOf(pn, sn, ind)
 ValidMember(pn, ind) == (ind \in {"fnlocal", "fnimp"}) <=> (pn \in AllFnPositions)
 
 \* ---- RecGraphs: dependency graphs over N declarations of every kind ------------------------------
@@ -251,6 +270,20 @@ RecInst(name) ==
     [] name = "fn-of-rec" -> one(<<FRec, Body(App(Var("f"), <<Rec("q", Arr(Var("q")))>>))>>)
     [] name = "same-binder-name" -> one(<<Decl("f", <<"y">>, Rec("x", Obj(<<Prop("a", Var("y")), Prop("b", Arr(Var("x")))>>))),
                                           Body(Rec("x", Obj(<<Prop("c", App(Var("f"), <<Var("x")>>))>>)))>>)
+    \* two imported modules with the same file name in different directories, with recursive declarations / rec
+    \* expressions at the same place of their text: one component per module
+    [] name = "same-file-name-decl" ->
+         [main |-> "m1", mods |-> [m \in {"m1", "v1/model", "v2/model"} |->
+            CASE m = "v1/model" -> <<Let("node", Obj(<<Prop("name", Prim("str")), Prop("kids", Arr(Var("node")))>>))>>
+              [] m = "v2/model" -> <<Let("node", Obj(<<Prop("text", Prim("int")), Prop("next", Arr(Var("node")))>>))>>
+              [] OTHER -> <<UseAs("v1/model", "a"), UseAs("v2/model", "b"),
+                            Body(Obj(<<Prop("one", QVar("a", "node")), Prop("two", QVar("b", "node"))>>))>>]]
+    [] name = "same-file-name-rec" ->
+         [main |-> "m1", mods |-> [m \in {"m1", "v1/model", "v2/model"} |->
+            CASE m = "v1/model" -> <<Let("node", Rec("r", Obj(<<Prop("name", Prim("str")), Prop("kids", Arr(Var("r")))>>)))>>
+              [] m = "v2/model" -> <<Let("node", Rec("r", Obj(<<Prop("text", Prim("int")), Prop("next", Arr(Var("r")))>>)))>>
+              [] OTHER -> <<UseAs("v1/model", "a"), UseAs("v2/model", "b"),
+                            Body(Obj(<<Prop("one", QVar("a", "node")), Prop("two", QVar("b", "node"))>>))>>]]
     [] name = "imported-fn" -> [main |-> "m1", mods |-> [m \in {"m1", "g"} |->
                                   IF m = "g" THEN <<FRec>>
                                   ELSE <<Use("g"), Body(Obj(<<Prop("a", App(Var("f"), <<Prim("num")>>)), Prop("b", App(Var("f"), <<Prim("str")>>))>>))>>]]
@@ -262,7 +295,7 @@ RecInst(name) ==
                                    Res(Var("a")), Res(Var("b"))>>)
     [] name = "mutual" -> one(<<Let("a", Obj(<<Prop("b", Var("b"))>>)), Let("b", Obj(<<Prop("a", Var("a"))>>)), Body(Obj(<<Prop("x", Var("a")), Prop("y", Var("b"))>>))>>)
 RecInstNames == {"nested-fn-two-args", "nested-fn-twice-two-args", "fn-once", "fn-twice", "fn-same-arg-twice", "fn-thrice", "top-twice", "nested-fn", "rec-in-rec", "decl-and-rec", "fn-of-rec",
-                 "same-binder-name", "imported-fn", "ref-decl-twice", "mutual", "rel-self", "rel-rec", "rel-domain", "rel-mutual"}
+                 "same-binder-name", "imported-fn", "same-file-name-decl", "same-file-name-rec", "ref-decl-twice", "mutual", "rel-self", "rel-rec", "rel-domain", "rel-mutual"}
 
 \* ---- Ranges, Uris, Xfers: the parts of a resource ---------------------------------------------------
 CntOf(st, md, body) ==
